@@ -26,7 +26,7 @@ TECHNIQUE = ('deterministic simulation of the store / deploy / load '
              'evolution simulated on the stored signature vs the target '
              'signature)')
 PLAN = {
-    'quick': {'count': 450, 'max_wall': 170, 'shrink_budget': 30,
+    'quick': {'count': 700, 'max_wall': 170, 'shrink_budget': 30,
               'shrink_wall': 100},
     'thorough': {'count': 9000, 'max_wall': 1500, 'shrink_budget': 60,
                  'shrink_wall': 300},
